@@ -258,12 +258,46 @@ def run(ctx):
                 rr = set(tgt)
                 for x in tgt:
                     rr |= gg.reach([x], stop_roles=("next", "matches"))
-                sides[lab] = {C.base(x) for x in rr if C.base(x) in ("next", "matches")}
-            if not (sorted(map(sorted, sides.values())) == [["matches"], ["next"]]):
+                rr2 = set(tgt)
+                for x in tgt:
+                    rr2 |= gg.reach([x], stop_roles=("next", "matches", "stash"))
+                sides[lab] = {C.base(x) for x in rr2 if C.base(x) in ("next", "matches", "stash")}
+            # in range: evaluated now, or held back in the deferred slot (evaluated when the walker is exhausted, see slot protocol)
+            if not (sorted(map(sorted, sides.values())) in ([["matches"], ["next"]], [["matches", "stash"], ["next"]])):
                 filt_ok = False
             r_ok |= {"matches"} if any("matches" in v for v in sides.values()) else set()
         ctx.ob("R4", "entry=>evaluated", bool(oks) and not reaches_next_without_match and filt_ok and any(C.base(x) == "matches" for x in r_ok),
                "every fetched entry (in range) must be evaluated before the next one is fetched; the only accepted bypass is the depth-range filter with one side evaluating and the other fetching; events after Ok: %s" % sorted(r_ok), fn=pf, how="event graph")
+    # ---- slot protocol of held-back entries (starting point under -depth) ----------------------------------------------------
+    stashes = gg.nodes("stash")
+    takes = gg.nodes("deferred_take")
+    if stashes or takes:
+        ok = bool(stashes) and bool(takes) and all(gg.succ(sn) and all(C.base(x) == "next" for x in gg.succ(sn)) for sn in stashes)
+        ctx.ob("R4", "held-back=>nothing-else-now", ok, "holding an entry back must only store it and fetch the next one; events: %s" % [(sn, gg.succ(sn)) for sn in stashes], fn=pf, how="event graph")
+        srcs = sorted({a for a, l, b in gg.edges if C.base(b) == "deferred_take"})
+        ok = all(C.base(a) == "next" for a in srcs) and all(l.split(",")[0] != "1" for a, l, b in gg.edges if C.base(b) == "deferred_take")
+        ctx.ob("R4", "held-back-fetched-when-walk-ends", ok, "the held-back entry may only be fetched when the walker is exhausted (next() == None); sources %s" % srcs, fn=pf, how="event graph")
+        for tn in takes:
+            some = gg.succ(tn, "1")
+            r = set(some)
+            for x in some:
+                r |= gg.reach([x], stop_roles=("next", "matches"))
+            ctx.ob("R4", "held-back=>evaluated", any(C.base(x) == "matches" for x in r), "a fetched held-back entry must be evaluated; reachable %s" % sorted(r), fn=pf, how="event graph")
+        # no re-stash after the walk is over: the stash is guarded by a flag that is set before the slot is taken
+        sb = [b for b in pf.reachable() for st in pf.blocks[b].stmts if C.walk_stmt_role(pf, b, st) == "stash"]
+        tb = [b for b, t in pf.calls() if C.walk_role(t) == "deferred_take"]
+        flag_ok = False
+        for b in sb:
+            for gd in prim.dominating_guards(pf, b):
+                pr = gd["pred"].strip()
+                inner = pr.kids[0].strip() if pr.k == "un" and pr.a == "Not" else pr
+                truth = gd["bool"] if inner is pr else (None if gd["bool"] is None else not gd["bool"])
+                if inner.k == "var" and pf.local_ty(inner.a["local"]) == "bool" and truth is False:
+                    fl = inner.a["local"]
+                    trues = [bb for bb, v in prim.const_assigns_to(pf, fl) if v is True]
+                    if trues and tb and all(any(pf.dominates(x, t_) for x in trues) for t_ in tb):
+                        flag_ok = True
+        ctx.ob("R4", "held-back-at-most-once", flag_ok, "an entry fetched from the slot must not be stored again (termination and exactly-once): the store must be guarded by a flag that is set before the slot is emptied", fn=pf, how="dominating guard + dominators")
     for m in gg.nodes("matches"):
         r = gg.reach([m], stop_roles=("next",))
         again = [x for x in r if C.base(x) == "matches"]
@@ -318,6 +352,26 @@ def run(ctx):
                 ctx.ob("R5", "other-error-propagated", bool(no) and all(x == "RET(agg:Result::Err)" for x in no), "errors other than not-found must be returned unchanged; found %s" % no, fn=fwf, how="event graph")
                 yes = h.reach(h.succ(n, "else"), stop_roles=("lstat",)) | set(h.succ(n, "else"))
                 ctx.ob("R5", "notfound=>lstat-or-error", all(C.base(x) in ("lstat",) or x == "RET(agg:Result::Err)" for x in yes), "a not-found error may only become an entry after an lstat of the path; events: %s" % sorted(yes), fn=fwf, how="event graph")
+            # the recovery must not depend on *where* the error occurred: a dangling link is a link whether it is a starting point
+            # (follow_root_links under -H/-L) or found below one; only the presence of (path, depth) may be tested
+            nfb = [b for b, t in fwf.calls() if role(t) == "is_not_found"]
+            lsb = [b for b, t in fwf.calls() if role(t) == "lstat"]
+            if nfb and lsb:
+                tr = prim.follow_bool(fwf, fwf.blocks[nfb[0]].term.target, fwf.blocks[nfb[0]].term.dest.local)
+                start = tr[0] if tr else None
+                bad_tests = []
+                if start is not None:
+                    for b in fwf.reach_from([start], avoid=set(lsb)):
+                        t = fwf.blocks[b].term
+                        if t.k == "switch" and any(x in fwf.reach_from([b]) for x in lsb):
+                            pr = prim.switch_pred(fwf, b).strip()
+                            if pr.k == "discr":
+                                continue
+                            if any(c.endswith("WalkError::depth") or c.endswith("DirEntry::depth") for c in prim.expand_single_def_vars(fwf, pr).callees()) or pr.k in ("bin", "field", "variant"):
+                                bad_tests.append("%s@%s" % (pr.fmt()[:80], prim.site(fwf, b)))
+                ctx.ob("R5", "recovery-independent-of-depth", start is not None and not bad_tests,
+                       "between `is_not_found()` and the lstat of the path the code also tests %s: a dangling link must be recovered at every depth (a starting point that is a dangling link fails at depth 0 under -H/-L and has to be visited as the link itself)" % bad_tests,
+                       fn=fwf, how="guards between two events")
             for n in h.nodes("lstat"):
                 ok_s = h.reach(h.succ(n, "0"))
                 bad = h.succ(n, "else") + h.succ(n, "1")
